@@ -37,6 +37,7 @@ class LineInterrupter:
     self.at = None
     self.exc_name = None
     self.fired = None       # (filename, lineno, function) where it landed
+    self.swallowed = 0      # delivered, but caught by something on the stack
 
   def _ours(self, filename):
     r = self._files.get(filename)
@@ -80,11 +81,17 @@ class LineInterrupter:
       finally:
         sys.settrace(old)
     except BaseException as e:  # pylint: disable=broad-except
-      if isinstance(e, Injected):
+      if isinstance(e, Injected) or self.fired is not None:
         return 'interrupted', self.fired, self.count
       if isinstance(e, Exception):
         return 'exc', e, self.count
       raise
+    if self.fired is not None:
+      # the fault was delivered and something on the stack swallowed it (a
+      # broad `except` fallback): the call WAS interrupted, whatever it then
+      # returned is not an answer to compare
+      self.swallowed += 1
+      return 'interrupted', self.fired, self.count
     return kind, value, self.count
 
 
